@@ -128,6 +128,13 @@ func VerifyLog(e *signedexchange.Exchange, t int64, fetch signedexchange.CertFet
 	return p, ok, buf.String()
 }
 
+// VerifyLogAt is VerifyLog at a sub-second instant.
+func VerifyLogAt(e *signedexchange.Exchange, t, nsec int64, fetch signedexchange.CertFetcher) ([]byte, bool, string) {
+	var buf bytes.Buffer
+	p, ok := e.Verify(time.Unix(t, nsec), fetch, log.New(&buf, "", 0))
+	return p, ok, buf.String()
+}
+
 // Canon is the logical content of an exchange as the property states it.
 type Canon struct {
 	Version string
